@@ -386,7 +386,7 @@ func c16Serve(w *c16World, q c16Req) (status int, body []byte, panicMsg string) 
 }
 
 func runC16(c *core.Ctx) {
-	n := c.N(6000, 300000)
+	n := c.N(6000, 800000)
 	const perWorld = 50
 	for wi := int64(0); wi < n/perWorld; wi++ {
 		if !c.Mine("world", wi) {
@@ -416,7 +416,7 @@ func runC16(c *core.Ctx) {
 }
 
 func runC16Race(c *core.Ctx) {
-	rounds := c.N(6, 120)
+	rounds := c.N(6, 300)
 	for h := int64(0); h < rounds; h++ {
 		if !c.Mine("race-handler", h) {
 			continue
